@@ -14,11 +14,13 @@ CHECKS = {
         text='Theorems (Props/C02.lean): over the regenerated selection program the weights, M, sqrtM and bandwidth left by fit '
              'belong to one iterate for every budget/history/flag combination (with and without restoration; the incoherent '
              'early-stop branch is proved unreachable); (K+lam I)alpha=Y iff K alpha = Y - lam alpha; uniqueness of the ridge solution '
-             'for PSD K and lam>0 (so solve/cholesky/lu must agree). Correspondence in float64 against real fits: iterate tags vs the '
+             'for PSD K and lam>0 (so solve/cholesky/lu must agree), and existence and uniqueness for the Gram matrix of ANY centers under the '
+             'Laplace / product / Lpq kernel with 0<q<=p<=2 (PSD proved, C05 Schoenberg). Correspondence in float64 against real fits: iterate tags vs the '
              'Lean machine and the residual of the ridge system with K recomputed from the stored state by an independent reference, '
              'under a computed rounding allowance.',
         note=TB + 'Modelled, not verified: torch.linalg.solve/cholesky/lu_factor (exact solve; checked through residuals), '
-             'floating-point rounding (absorbed by the allowance of DESIGN 4.3), PSD of the Gram matrix (hypothesis; C05 leaves it unproved).',
+             'floating-point rounding (absorbed by the allowance of DESIGN 4.3). PSD of the Gram matrix is proved for the Laplace family (0<q<=p<=2); '
+             'for the sum-power kernel it stays an hypothesis of ridge_unique.',
         technique='Lean 4 proof (loop invariant over regenerated program + matrix algebra) + float64 differential check with property oracle',
         ref='DESIGN.md §6 C02'),
     'C03': dict(
